@@ -69,6 +69,7 @@ type ServerSpec struct {
 	ClockBase    int64             `json:"clock_base,omitempty"` // unix seconds
 	ClockSkewS   int64             `json:"clock_skew_s,omitempty"`
 	Zone         int               `json:"zone,omitempty"` // offset seconds east of UTC
+	ClockFine    bool              `json:"clock_fine,omitempty"` // clock advances by 1..1500 ms per read instead of 1 s
 }
 
 type ReqSpec struct {
